@@ -85,6 +85,15 @@ def run(ck):
             else:
                 coq = f'mat_close (1#100000000) (add_ridge {rq} (normalise_mat (agop {d}%nat {coq_bool(centring)} {b}%nat {coq_list([coq_Qmat(p) for p in Gp])}))) {coq_Qmat(Mb.tolist())}'
             cid = len(cases); cases.append((cid, coq)); meta[cid] = dict(desc, b=b)
+        # diagonal mode is the diagonal of the full matrix (same gradients, same centring option, any number of outputs)
+        with xr.quiet():
+            cf = m.weights.t()
+            Ad = m.kernel_obj.get_agop_diag(m.centers, m.centers, cf, mat, center_grads=centring).double().numpy()
+            Afull = m.kernel_obj.get_agop(m.centers, m.centers, cf, mat, center_grads=centring).double().numpy()
+        devd = float(np.max(np.abs(Ad - np.diag(Afull))))
+        if devd > 1e-9 * (1 + float(np.abs(Afull).max())):
+            ck.violation(f'diagonal-mode AGOP is not the diagonal of the full AGOP (max dev {devd:.3g}; {nout} outputs, centring={centring}) on {desc}',
+                         dict(desc, diag_mode=Ad.tolist(), diagonal_of_full=np.diag(Afull).tolist()), key=json.dumps(dict(site='diag-vs-full', centring=centring)))
         # batch-size independence
         ref = results[n]
         for b, Mb in results.items():
